@@ -146,7 +146,7 @@ class Env:
             it = self.script[i]
             if it[0] == "req" or self.done[i]:
                 continue
-            if it[0] == "unget":
+            if it[0] in ("unget", "reenter"):
                 return None  # a program action, not an asynchronous event: nothing behind it may overtake it
             return i
         return None
@@ -322,8 +322,12 @@ def run_scenario(scn, chooser):
     fails = []
     obs = []
     try:
-        inp = ci.Input(in_stream=Stream(), keynames="bytes", paste_threshold=scn["paste_threshold"], sigint_event=scn["sigint_event"])
+        inp = ci.Input(in_stream=Stream(), keynames="bytes", paste_threshold=scn["paste_threshold"], sigint_event=scn["sigint_event"], disable_terminal_start_stop=scn.get("dtss", False))
         env.inp = inp
+        if scn.get("typeahead"):
+            # typed before the program got as far as entering the context
+            kernel.raw_write(0, scn["typeahead"])
+            model.arrived(scn["typeahead"])
         inp.__enter__()
         env.cbs = {"plain": inp.event_trigger(Tag), "ts": inp.threadsafe_event_trigger(TsTag), "sched": inp.scheduled_event_trigger(Sched)}
         env.ts_class = TsTag
@@ -461,6 +465,13 @@ def run_scenario(scn, chooser):
                 if request(it[1], "script") == "stop":
                     stopped = True
                     break
+            elif it[0] == "reenter":
+                # the program leaves the context, input arrives meanwhile, and it enters the same Input again
+                env.done[i] = True
+                inp.__exit__(None, None, None)
+                kernel.raw_write(0, it[1])
+                model.arrived(it[1])
+                inp.__enter__()
             elif not env.done[i]:
                 env.deliver(("script", i), kernel)
         if not stopped and not fails:
@@ -637,12 +648,27 @@ def family_large(thorough):
         yield {"paste_threshold": 8, "sigint_event": False, "script": [("bytes", b"".join(units)), ("req", 0), ("req", 0)], "family": "large_burst", "units": units}
 
 
+def family_lifecycle(thorough):
+    """Input that is already waiting in the terminal when the context is entered (type-ahead), input arriving between leaving and
+    re-entering the context, with and without the start/stop option - entering must not discard any of it."""
+    tails = [[("req", 0), ("req", 0)], [("req", None), ("req", 0)], [("bytes", b"b"), ("req", 0), ("req", 0)], [("ts", "t1"), ("req", None), ("req", 0), ("req", 0)]]
+    for dtss in (False, True):
+        for sig in (False, True):
+            for ta in (b"a", b"ls\n", b"\x1b[A", b"abcdefghij", "∂".encode()):
+                for tail in tails:
+                    yield {"paste_threshold": 8, "sigint_event": sig, "dtss": dtss, "typeahead": ta, "script": list(tail), "family": "lifecycle"}
+            for mid in (b"x", b"\x1b[B", b"xyzxyzxyzxyz"):
+                for head in ([], [("bytes", b"a"), ("req", 0)], [("bytes", b"ab"), ("req", 0)], [("bytes", b"q")], [("event", "e1")], [("ts", "t1")], [("sigint",)] if sig else [("unget", b"u")]):
+                    for tail in tails[:3] if not thorough else tails:
+                        yield {"paste_threshold": 8, "sigint_event": sig, "dtss": dtss, "script": list(head) + [("reenter", mid)] + list(tail), "family": "lifecycle"}
+
+
 def usable(scn):
     """Drop scripts in which an untimed request would block forever by construction (nothing after it can wake it)."""
     script = scn["script"]
     for i, it in enumerate(script):
         if it[0] == "req" and it[1] is None:
-            before = [x for x in script[:i] if x[0] != "req"]
+            before = [x for x in script[:i] if x[0] != "req"] + ([1] if scn.get("typeahead") else [])
             after = [x for x in script[i + 1 :] if x[0] in ("bytes", "ts", "sigint")]
             if not before and not after:
                 return False
@@ -653,13 +679,18 @@ def show(scn):
     def s(it):
         return [x.decode("latin-1") if isinstance(x, bytes) else x for x in it]
 
-    return {"paste_threshold": scn["paste_threshold"], "sigint_event": scn["sigint_event"], "script": [s(it) for it in scn["script"]], "family": scn["family"]}
+    out = {"paste_threshold": scn["paste_threshold"], "sigint_event": scn["sigint_event"], "script": [s(it) for it in scn["script"]], "family": scn["family"]}
+    if "typeahead" in scn:
+        out["typeahead"] = scn["typeahead"].decode("latin-1")
+    if "dtss" in scn:
+        out["disable_terminal_start_stop"] = scn["dtss"]
+    return out
 
 
 def all_scenarios(tier):
     thorough = tier == "thorough"
     out = []
-    for fam in (family_bytes, family_events, family_three_requests, family_large):
+    for fam in (family_bytes, family_events, family_three_requests, family_large, family_lifecycle):
         for scn in fam(thorough):
             if usable(scn):
                 out.append(scn)
@@ -707,8 +738,12 @@ def real_run(scn):
 
     obs = []
     before_fds = set(os.listdir("/proc/self/fd"))
-    inp = ci.Input(in_stream=RealStream(), keynames="bytes", paste_threshold=scn["paste_threshold"], sigint_event=scn["sigint_event"])
+    inp = ci.Input(in_stream=RealStream(), keynames="bytes", paste_threshold=scn["paste_threshold"], sigint_event=scn["sigint_event"], disable_terminal_start_stop=scn.get("dtss", False))
     try:
+        if scn.get("typeahead"):
+            # the terminal is still in line mode: what is typed now only becomes readable once cbreak mode is on
+            os.write(master, scn["typeahead"])
+            time.sleep(0.03)
         with inp:
             cbs = {"plain": inp.event_trigger(Tag), "ts": inp.threadsafe_event_trigger(TsTag), "sched": inp.scheduled_event_trigger(Sched)}
 
@@ -759,6 +794,11 @@ def real_run(scn):
                         select.select([], [], [], 0.0005)
                 elif k == "unget":
                     inp.unget_bytes(it[1])
+                elif k == "reenter":
+                    inp.__exit__(None, None, None)
+                    os.write(master, it[1])
+                    time.sleep(0.03)
+                    inp.__enter__()
                 elif k == "event":
                     cbs["plain"](tag=it[1])
                 elif k == "ts":
